@@ -12,7 +12,7 @@ TRUSTED_BASE = ['transcendental functions (libm), parseDate (dtparse) on text ot
                 'timeslice is checked on the implementation alone against Python integer arithmetic on RFC 3339 timestamps']
 ASSUMPTIONS = []
 
-POOL = [None, True, False, 0, 1, -1, 2, 10, 2**31, 2**53, -2**53, 2**53 + 1, 2**63 - 1, -2**63, 0.5, -0.5, 1.5, 2.5, 1e300, -1e300, 1e-300, 0.1, 1e15 + 0.5,
+POOL = [None, True, False, 0, 1, -1, 2, 10, -0.25, -1.5, 0.75, 2**31, 2**53, -2**53, 2**53 + 1, 2**63 - 1, -2**63, 0.5, -0.5, 1.5, 2.5, 1e300, -1e300, 1e-300, 0.1, 1e15 + 0.5,
         '', 'a', 'b', 'B', 'ab', 'a b', '10', '9', 'é', 'true', [], [1], [2], [1, 2], [1, 'a'], [[1]], {}, {'p': 1}, {'p': 2}, {'p': 1, 'q': 2}, {'q': 1}]
 
 
@@ -59,6 +59,9 @@ def check_comparisons(failures):
             why = 'a > b differs from b < a'
         elif r['i'] == r['j'] and not eq:
             why = 'a value is not == to itself'
+        elif all(isinstance(x, (int, float)) and not isinstance(x, bool) for x in (a, b)) and (lt, eq, gt) != (a < b, a == b, a > b):
+            # "comparisons are numeric between numbers": Python compares an int with a float exactly
+            why = 'the numeric order says lt=%s eq=%s gt=%s, the tool lt=%s eq=%s gt=%s' % (a < b, a == b, a > b, lt, eq, gt)
         if why:
             failures.append({'kind': 'spec', 'what': 'comparison operators inconsistent for a=%r b=%r: %s' % (a, b, why),
                              'payload': {'query': q, 'input_lines': [json.dumps({'i': r['i'], 'j': r['j'], 'a': a, 'b': b}) + '\n'], 'row': r}})
